@@ -11,3 +11,8 @@ claim("C15", "static typestate / must-pass-through analysis of engine state (cac
       "Structural necessary conditions of history-independence for all update/query interleavings at once: every function of package eval that writes state read by CheckIfAllowed passes a cache invalidation on every path to a normal return (read set and invalidators computed from the code); every exported entry that adds an admin network policy returns with the slice re-sorted; delete paths do not dereference absent objects (E2). It does not decide the answers themselves, lru eviction, or verdict changes through pod fields outside the cache key.",
       NOTE_COMMON + " Pod-granular cache bookkeeping is accepted as invalidation for podsMap only (cache key embeds namespace, owner and label hash).", "DESIGN.md 3(E4), 4(C15)")
 PENDING.pop("C12", None); PENDING.pop("C15", None)
+
+claim("C11", "static effect/alias/field-coverage analysis on module SSA + canonical-form typestate (typed AST)",
+      "Structural necessary conditions of the set algebra for all operands and operation sequences at once: query operations write nothing and mutators write only their receiver; no operand pointer/map is stored into another set or returned, Copy is deep; every ConnectionSet method that can grow the protocol map re-establishes the canonical 'All Connections' form on every exit and the representation is written only inside package common; each binary PortSet operation consults the numeric and the named ports of both sides. It does not decide that results denote the right point sets (interval arithmetic is np-guard/models').",
+      NOTE_COMMON + " Library effect table for interval.CanonicalSet read from np-guard/models v0.5.2. One open known finding (F16: PortSet.Intersection ignores named ports).", "DESIGN.md 3(E3), 4(C11)")
+PENDING.pop("C11", None)
